@@ -77,7 +77,12 @@ impl Blob {
         }
 
         let mut limited = reader.take(self.length);
-        copy(&mut limited, writer).read_err("Failed to read binary blob data")
+        let copied = copy(&mut limited, writer).read_err("Failed to read binary blob data")?;
+        // The file can end before the announced length, a shortened blob must not look like a success
+        if copied != self.length {
+            Error::invalid("The file ends before the full length of the blob was read")?
+        }
+        Ok(copied)
     }
 
     pub(crate) fn write<T: Read + Write + Seek>(
